@@ -98,13 +98,14 @@ def sig_of(res, want=None):
 
 # ---------------------------------------------------------------------------
 def write_evidence(prop, tier, seed, coverage, wall, violations, assumptions):
-    os.makedirs(os.path.join(VERIF, "evidence"), exist_ok=True)
+    evdir = os.environ.get("VERIF_EVIDENCE_DIR") or os.path.join(VERIF, "evidence")
+    os.makedirs(evdir, exist_ok=True)
     ev = {
         "property_id": prop, "tier": tier, "seed": seed, "level": "exploration",
         "coverage": coverage, "assumptions": assumptions,
         "wall_s": round(wall, 2), "violations": violations,
     }
-    path = os.path.join(VERIF, "evidence", "%s.json" % prop)
+    path = os.path.join(evdir, "%s.json" % prop)
     tmp = path + ".tmp"
     with open(tmp, "w", encoding="utf-8") as f:
         json.dump(ev, f, indent=1, ensure_ascii=False, sort_keys=True)
@@ -324,8 +325,9 @@ def main(check, tier, base_seed):
                 exit_code = 2
                 continue
             vv = [x for x in final["violations"] if x["sig"] == sig][0]
-            os.makedirs(os.path.join(VERIF, "replays", prop), exist_ok=True)
-            rpath = os.path.join(VERIF, "replays", prop, "%d-%s-%d-%s.json" %
+            rdir = os.path.join(os.environ.get("VERIF_REPLAY_DIR") or os.path.join(VERIF, "replays"), prop)
+            os.makedirs(rdir, exist_ok=True)
+            rpath = os.path.join(rdir, "%d-%s-%d-%s.json" %
                                  (base_seed, bname, idx, hashlib.sha256(sig.encode()).hexdigest()[:8]))
             with open(rpath, "w", encoding="utf-8") as f:
                 json.dump({"property": prop, "base_seed": base_seed, "tier": tier, "batch": bname,
